@@ -87,6 +87,18 @@ type uxTx struct {
 	ID   int     `json:"id"`
 	Nout int     `json:"nout"`
 	Ins  [][]int `json:"ins"`
+	// script id of every output; outputs with the same id pay to the same
+	// script (address re-use).  Absent (chain tables saved before the field
+	// existed): every output has a script of its own, id*10 + index.
+	Scr []int `json:"scr,omitempty"`
+}
+
+// scriptID is the script id of output i of the transaction.
+func (t uxTx) scriptID(i int) int {
+	if i < len(t.Scr) {
+		return t.Scr[i]
+	}
+	return t.ID*10 + i
 }
 
 type uxReqObs struct {
@@ -157,7 +169,10 @@ type uxChainData struct {
 	height  map[chainhash.Hash]int
 	txs     map[int]*wire.MsgTx
 	txID    map[chainhash.Hash]int
-	owner   map[string][2]int // pkScript -> (txid, index)
+	abs     map[int]uxTx
+	// (pkScript, value) -> (txid, index): several outputs may pay to one
+	// script, the value (uxValue) tells them apart
+	owner map[string][2]int
 }
 
 var uxChains sync.Map // json(desc) -> *uxChainData
@@ -165,6 +180,29 @@ var uxChains sync.Map // json(desc) -> *uxChainData
 func uxScript(t, i int) []byte {
 	d := sha256.Sum256([]byte(fmt.Sprintf("verif-utxo-%d-%d", t, i)))
 	return append([]byte{0x51, 0x20}, d[:]...)
+}
+
+// uxScriptOfID is the script with the given id of the chain description.
+func uxScriptOfID(id int) []byte {
+	d := sha256.Sum256([]byte(fmt.Sprintf("verif-utxo-script-%d", id)))
+	return append([]byte{0x51, 0x20}, d[:]...)
+}
+
+// uxValue is the amount of output i of transaction t: unique per outpoint.
+func uxValue(t, i int) int64 { return int64(1000*t + i + 1) }
+
+func uxOwnerKey(script []byte, value int64) string {
+	return fmt.Sprintf("%x/%d", script, value)
+}
+
+// scriptOf is the script outpoint (t, i) pays to: that of the real output
+// if a transaction of the chain creates it, else (foreign transaction, index
+// out of range) a script of its own that no output of the chain pays to.
+func (cd *uxChainData) scriptOf(t, i int) []byte {
+	if a, ok := cd.abs[t]; ok && i >= 0 && i < a.Nout {
+		return uxScriptOfID(a.scriptID(i))
+	}
+	return uxScript(t, i)
 }
 
 func uxForeignHash(t int) chainhash.Hash {
@@ -177,8 +215,9 @@ func uxBuildChain(desc [][]uxTx) (*uxChainData, error) {
 		return v.(*uxChainData), nil
 	}
 	cd := &uxChainData{desc: desc, h: len(desc), height: map[chainhash.Hash]int{},
-		txs: map[int]*wire.MsgTx{}, txID: map[chainhash.Hash]int{}, owner: map[string][2]int{}}
-	abs := map[int]uxTx{}
+		txs: map[int]*wire.MsgTx{}, txID: map[chainhash.Hash]int{}, owner: map[string][2]int{},
+		abs: map[int]uxTx{}}
+	abs := cd.abs
 	for _, blk := range desc {
 		for _, t := range blk {
 			if _, dup := abs[t.ID]; dup {
@@ -215,8 +254,8 @@ func uxBuildChain(desc [][]uxTx) (*uxChainData, error) {
 			tx.AddTxIn(wire.NewTxIn(&wire.OutPoint{Hash: ph, Index: uint32(in[1])}, nil, nil))
 		}
 		for i := 0; i < t.Nout; i++ {
-			tx.AddTxOut(wire.NewTxOut(int64(1000+i), uxScript(id, i)))
-			cd.owner[string(uxScript(id, i))] = [2]int{id, i}
+			tx.AddTxOut(wire.NewTxOut(uxValue(id, i), cd.scriptOf(id, i)))
+			cd.owner[uxOwnerKey(cd.scriptOf(id, i), uxValue(id, i))] = [2]int{id, i}
 		}
 		cd.txs[id] = tx
 		cd.txID[tx.TxHash()] = id
@@ -242,7 +281,7 @@ func uxBuildChain(desc [][]uxTx) (*uxChainData, error) {
 					prevScripts = append(prevScripts, uxScript(-t.ID, 0))
 				}
 				for _, in := range t.Ins {
-					prevScripts = append(prevScripts, uxScript(in[0], in[1]))
+					prevScripts = append(prevScripts, cd.scriptOf(in[0], in[1]))
 				}
 			}
 		}
@@ -279,7 +318,7 @@ func (cd *uxChainData) input(t, i int) (*InputWithScript, error) {
 		return nil, fmt.Errorf("request for tx %d which is not in the chain", t)
 	}
 	return &InputWithScript{OutPoint: wire.OutPoint{Hash: tx.TxHash(), Index: uint32(i)},
-		PkScript: uxScript(t, i)}, nil
+		PkScript: cd.scriptOf(t, i)}, nil
 }
 
 func (cd *uxChainData) project(rep *SpendReport, err error) []int {
@@ -297,8 +336,10 @@ func (cd *uxChainData) project(rep *SpendReport, err error) []int {
 		}
 		return []int{uxKSpend, int(rep.SpendingTxHeight), id, int(rep.SpendingInputIndex)}
 	case rep.Output != nil:
-		o, ok := cd.owner[string(rep.Output.PkScript)]
-		if !ok || rep.Output.Value != int64(1000+o[1]) {
+		// the output the report names: identified by script AND value
+		// (outputs of different outpoints may share the script)
+		o, ok := cd.owner[uxOwnerKey(rep.Output.PkScript, rep.Output.Value)]
+		if !ok {
 			return []int{uxKBad, 0, 0, 0}
 		}
 		h := int(rep.BlockHeight)
@@ -487,7 +528,7 @@ func (e *uxEnv) filterMatches(ro *rescanOptions, hash *chainhash.Hash) (bool, er
 		watch: func() [][]byte {
 			var w [][]byte
 			for _, r := range e.reqs {
-				w = append(w, uxScript(r.tx, r.idx))
+				w = append(w, e.cd.scriptOf(r.tx, r.idx))
 			}
 			return w
 		}}
@@ -717,7 +758,11 @@ func (e *uxEnv) release(want uxAct) (uxAct, string) {
 		a.C = e.above()
 	}
 	from := e.pc
-	r := uxRelease{fail: want.Res == "fail", match: want.Res == "match",
+	// filter gate: the block's true filter unless the model step says the
+	// environment serves a false positive (act.b = 1); a "match" with b = 0 is
+	// the helper's own answer over the reporter's watch list
+	r := uxRelease{fail: want.Res == "fail",
+		match: want.Res == "match" && want.B == 1 && from == uxFilter,
 		stale: want.Res == "stale" && from == uxFilter}
 	e.rel <- r
 	dump := e.wait()
@@ -729,6 +774,9 @@ func (e *uxEnv) release(want uxAct) (uxAct, string) {
 	case from == uxFilter:
 		if atomic.LoadInt32(&e.lastMatch) == 1 {
 			a.Res = "match"
+			if r.match {
+				a.B = 1
+			}
 		} else {
 			a.Res = "nomatch"
 		}
